@@ -32,7 +32,7 @@ EXPLANATION = ("Lean theorems (unbounded): the three Token AST setters preserve 
                "invariants re-evaluated on the dump) - hence level 'other'.")
 THEOREMS = ["Cppcheck.C14." + t for t in (
     "setters_preserve_inv", "setters_preserve_weak", "direct_astParent_breaks_listed", "reachable_inv", "reachable_weak",
-    "setters_terminate", "links_symmetric_nested", "links_never_ub", "toxml_wellformed", "attrSafe_no_markup",
+    "setters_terminate", "links_symmetric_nested", "links_never_ub", "links_accepted_iff_balanced", "toxml_wellformed", "attrSafe_no_markup",
     "toxml_roundtrip", "toxml_roundtrip_counterexample", "idString_injective", "idString_wellformed")]
 MODULES = ["Cppcheck.Props.C14"]
 
@@ -126,6 +126,18 @@ def gen_links(rng):
             k = rng.randrange(len(toks))
             toks[j], toks[k] = toks[k], toks[j]
     return ("links2 " if rng.random() < 0.2 else "links ") + " ".join(core.hx(t) for t in toks), toks
+
+
+def py_balanced(toks):
+    st = []
+    for t in toks:
+        c = t[0]
+        if c in "({[":
+            st.append(c)
+        elif c in ")}]":
+            if not st or "({[".index(st.pop()) != ")}]".index(c):
+                return False
+    return not st
 
 
 def links_ok(toks, out):
@@ -276,6 +288,10 @@ def inprocess(ctx, res, drv, exe, thorough):
                                   key=None)
                     break
         elif kind == "links":
+            if out.startswith("ok") != py_balanced(info):
+                res.violation("createLinks %s a token list whose brackets are %sbalanced" %
+                              ("accepted" if out.startswith("ok") else "rejected", "" if py_balanced(info) else "un"),
+                              dict(kind="links", op=op, out=out, why="acceptance != balancedness"), concrete=True, key=None)
             if out.startswith("ok"):
                 res.count("links:ok")
                 why = links_ok(info, out)
@@ -349,6 +365,11 @@ def t_writers(ctx, res):
     ok = not unknown and not missing and not new_raw and kinds.get("toxml", 0) >= 20 and kinds.get("id", 0) >= 30
     res.oblig("T-writers:dump-attribute-writers", ok, "translation",
               "" if ok else "unknown shapes: %s | functions not found: %s | raw writers not in the reviewed list: %s" % (unknown[:4], missing, new_raw))
+    # every attribute written through id_string is an id definition or a reference the dump checker resolves
+    known = set(a for (_e, a) in c14_dump.REFS) | {"id"}
+    unk_ref = sorted(set((f, a) for (f, a, _e, k) in writers if k == "id" and a not in known))
+    res.oblig("T-refs:every-id-attribute-is-resolved-by-the-dump-check", not unk_ref and kinds.get("id", 0) >= 30, "translation",
+              "" if not unk_ref else "id-valued attributes the dump checker does not know: %s" % unk_ref)
     return new_raw
 
 
@@ -538,8 +559,6 @@ def locate_malformed(dump, text):
 def classify(key, text, dump):
     if key == "xml-malformed":
         el = locate_malformed(dump, text)
-        if el in ("library", "f"):
-            return "raw-writer-config-text", el
         return "xml-malformed:" + el, el
     return key, None
 
@@ -588,6 +607,14 @@ def run_cases(ctx, res, cases, label):
                 res.case("cli|" + c["name"], False)
                 continue
             st, problems = c14_dump.check_dump(dump, cd)
+            for (tag, attr, want) in (c.get("expect_attr") or []):
+                try:
+                    import xml.etree.ElementTree as ET
+                    got = [e.get(attr) for e in ET.parse(dump).getroot().iter(tag)]
+                except Exception as ex:
+                    got = ["unparsable: %s" % ex]
+                if want not in got:
+                    problems.append(("attr-value-lost", "<%s %s=...> reads back as %r, the value written was %r" % (tag, attr, got[:3], want)))
             nt = st["links"] >= 1 and st["ast_edges"] >= 1
             samp = None
             if nt and len(res.samples) < 12 and c["origin"] in ("generated", "snippet", "corpus"):
@@ -634,7 +661,9 @@ def cli(ctx, res, thorough):
     cp = os.path.join(core.VERIF, "corpus", "C14", "cli.json")
     if os.path.exists(cp):
         for c in json.load(open(cp)):
-            cases.append(mk_case("corpus:" + c["name"], "corpus", c["lang"], c["code"], c.get("args"), c.get("files")))
+            cc = mk_case("corpus:" + c["name"], "corpus", c["lang"], c["code"], c.get("args"), c.get("files"))
+            cc["expect_attr"] = c.get("expect_attr")
+            cases.append(cc)
     # repository corpora
     cfgs = sorted(glob.glob(os.path.join(core.REPO, "test", "cfg", "*.c")) + glob.glob(os.path.join(core.REPO, "test", "cfg", "*.cpp")))
     if not thorough:
@@ -678,7 +707,7 @@ def run(ctx, res):
     exe = ctx.harness("c14")
     inprocess(ctx, res, drv, exe, thorough)
     cli(ctx, res, thorough)
-    if any(not o["ok"] for o in res.obligations) and not any(v["concrete"] and v.get("key") != "raw-writer-config-text" for v in res.violations):
+    if any(not o["ok"] for o in res.obligations) and not any(v["concrete"] for v in res.violations):
         search(ctx, res, drv, exe)
 
 
@@ -688,9 +717,7 @@ def search(ctx, res, drv, exe):
     inprocess(ctx, sub, drv, exe, True)
     cli(ctx, sub, True) if any(o["kind"] == "translation" and not o["ok"] for o in res.obligations) else None
     res.extra["search_evaluations"] = sub.evaluations
-    for v in sub.violations:
-        if v.get("key") != "raw-writer-config-text":
-            res.violations.append(v)
+    res.violations.extend(sub.violations)
 
 
 def replay(ctx, res, rp):
